@@ -173,3 +173,13 @@ impl Debug for Cleanable {
         f.debug_struct("Cleanable").finish_non_exhaustive()
     }
 }
+
+#[cfg(feature = "verif-hooks")]
+impl Cleaner {
+    /// (Verification hook) Returns the snapshot of the internal `Cc<CleanerMap>`, if allocated.
+    pub fn verif_map_snapshot(&self) -> Option<crate::verif_hooks::Snapshot> {
+        // SAFETY: no mutable reference to the Option exists while this method runs
+        let map = unsafe { &*self.cleaner_map.get() };
+        map.as_ref().map(crate::verif_hooks::snapshot)
+    }
+}
